@@ -53,7 +53,7 @@ type c04Config struct {
 
 func init() {
 	register(&Prop{ID: "C04", Run: c04Run,
-		Rule: "pairs of root containers A, B over a shared 6-key pool (B independent, or A after 1-4 local edits: key added/removed, leaf changed, kind swapped, list grown/shrunk/permuted), nulls with probability 0.2, lists of containers and lists of lists, both list strategies, B optionally sealed; every pair is merged again with the documents built so that structurally equal subtrees are ONE node object (inside A, inside B and between them; three times, once with a tree-shaped A, when B holds a composite subtree at several positions) — what b.AddValue(k1, n); b.AddValue(k2, n) produces — and a shared stream copies one or two composite subtrees of B to a second position and gives A members of its own at both places, so that the right-hand side references a non-empty container from two places that exist on the left; the result must be the reference merge of the two contents, whichever objects hold them; overlay cases add 2-4 such documents as layers and read Merged(opts); 300 overlay-hist cases (c04_ovhist.go) add 2-3 layers and then run 2-6 steps — a write through a live node (the builder Lookup(layer, path) hands out, or the caller's own handle on the document given to Add: AddValue / Remove on a nested container, Append on a list), Put, Add (also of a new layer), Populate, Serialize — reading Merged() and Merged(ListsMergeAppend()) after the layers are added and after EVERY step, each time against the reference fold over Layers() in LayerNames() order at that moment; heap-merge cases build A and B (or 1-3 overlay layers) in one of seven ways (FromMap, AddValue/ListNode with own or shared nil leaves, AddContainer/AddList/Set/Append, subtrees shared inside and between the documents, containers with an add-and-remove history), encode the real object graph as an explicit heap by pointer identity, Merge / Merged, and compare the result's sharing map (which result node is which input object / a new object) with the heap model, snapshot the inputs pointer for pointer, then write in place to the merged containers of the result; config cases send defaults plus 1-3 override sources (YAML file, JSON file, map, dom container) through fluent.ConfigHelper (six of them with an override file just over 512 B / 4 KiB / 64 KiB); 240 further config cases (c04_typed.go) hand the defaults to Add as a typed Go value — map of structs, named map type, map of struct pointers, a settings struct or a pointer to it, a named map[string]any, a map of maps, a map of struct slices, typed scalar maps/slices inside a map[string]any — and merge 1-2 SPARSE overrides (a subset of the entries, a subset of the fields of each, shorter/longer lists, kind conflicts, nulls) over it: expected is the reference fold over the document the value stands for (its YAML encoding decoded), and the result must equal that of Add(that document); four wide cases per quick run (c04_wide.go, direct predicates only) merge documents of 1100 / 4200 / 12000 / 33000 entries (members of the root, or, below 5000, items of one list) whose entries follow 1-3 small templates per side, the right side's being the left side's after the edits of an override (containers emptied out, members dropped, leaves changed), optionally only every 2nd/3rd entry: no panic, == reference merge, inputs unchanged, identity with {} on both sides, self-merge; seq cases merge the SAME A with 2-3 documents one after the other (half of them sparse documents that extend one of A's lists by 1-3 items; lists of up to 7 items, so that item slices have spare capacity), with itself under both strategies, and each B with A, re-observe every earlier result after all later merges, then edit A in place (domhist.go: AddValue / Remove / Set / MustSet / Append / Clear through nested builders, Lookup, the root's path API) and merge again; one in five builds all documents of the case so that structurally equal subtrees are one node object. A case is non-trivial when the two sides (some two layers / sources) share at least one key; distinct = distinct canonical case JSON (hash).",
+		Rule: "pairs of root containers A, B over a shared 6-key pool (B independent, or A after 1-4 local edits: key added/removed, leaf changed, kind swapped, list grown/shrunk/permuted), nulls with probability 0.2, lists of containers and lists of lists, both list strategies, B optionally sealed; every pair is merged again with the documents built so that structurally equal subtrees are ONE node object (inside A, inside B and between them; three times, once with a tree-shaped A, when B holds a composite subtree at several positions) — what b.AddValue(k1, n); b.AddValue(k2, n) produces — and a shared stream copies one or two composite subtrees of B to a second position and gives A members of its own at both places, so that the right-hand side references a non-empty container from two places that exist on the left; the result must be the reference merge of the two contents, whichever objects hold them; overlay cases add 2-4 such documents as layers and read Merged(opts); 300 overlay-hist cases (c04_ovhist.go) add 2-3 layers and then run 2-6 steps — a write through a live node (the builder Lookup(layer, path) hands out, or the caller's own handle on the document given to Add: AddValue / Remove on a nested container, Append on a list), Put, Add (also of a new layer), Populate, Serialize — reading Merged() and Merged(ListsMergeAppend()) after the layers are added and after EVERY step, each time against the reference fold over Layers() in LayerNames() order at that moment; heap-merge cases build A and B (or 1-3 overlay layers) in one of seven ways (FromMap, AddValue/ListNode with own or shared nil leaves, AddContainer/AddList/Set/Append, subtrees shared inside and between the documents, containers with an add-and-remove history), encode the real object graph as an explicit heap by pointer identity, Merge / Merged, and compare the result's sharing map (which result node is which input object / a new object) with the heap model, snapshot the inputs pointer for pointer, then write in place to the merged containers of the result; config cases send defaults plus 1-3 override sources (YAML file, JSON file, map, dom container) through fluent.ConfigHelper (six of them with an override file just over 512 B / 4 KiB / 64 KiB); 240 further config cases (c04_typed.go) hand the defaults to Add as a typed Go value — map of structs, named map type, map of struct pointers, a settings struct or a pointer to it, a named map[string]any, a map of maps, a map of struct slices, typed scalar maps/slices inside a map[string]any — and merge 1-2 SPARSE overrides (a subset of the entries, a subset of the fields of each, shorter/longer lists, kind conflicts, nulls) over it: expected is the reference fold over the document the value stands for (its YAML encoding decoded), and the result must equal that of Add(that document); four wide cases per quick run (c04_wide.go, direct predicates only) merge documents of 1100 / 4200 / 12000 / 33000 entries (members of the root, or, below 5000, items of one list) whose entries follow 1-3 small templates per side, the right side's being the left side's after the edits of an override (containers emptied out, members dropped, leaves changed), optionally only every 2nd/3rd entry: no panic, == reference merge, inputs unchanged, identity with {} on both sides, self-merge; 540 index-named cases (c04_keys.go; pairs incl. FromMap-built ones, overlays, config sources) put a list of 1-4 (now and then 10-12) items on one side and, at the same position 1-3 levels down, a container on the other whose 1..len+1 member names are decimal list positions (mostly in range, sometimes all of them, one past the end, a non-canonical spelling such as 01 / +1 / -1 / 1.0, or a non-number) with the items after an edit or fresh nodes as values, in either direction — the kind conflict in which the two sides look like two spellings of one list; seq cases merge the SAME A with 2-3 documents one after the other (half of them sparse documents that extend one of A's lists by 1-3 items; lists of up to 7 items, so that item slices have spare capacity), with itself under both strategies, and each B with A, re-observe every earlier result after all later merges, then edit A in place (domhist.go: AddValue / Remove / Set / MustSet / Append / Clear through nested builders, Lookup, the root's path API) and merge again; one in five builds all documents of the case so that structurally equal subtrees are one node object. A case is non-trivial when the two sides (some two layers / sources) share at least one key; distinct = distinct canonical case JSON (hash).",
 		Assumptions: []string{
 			"scalars are NaN-free and -0-free; a leaf is null iff its Go value is nil (wire scalar {nil,<nil>})",
 			"keys are arbitrary strings (a path-safe pool, and a second pool with dots, slashes, spaces, '~', brackets, non-ASCII text and the empty key); no key ends in an index group `[digits]`: the API invariant discussed under D26",
@@ -173,6 +173,8 @@ func c04Run(c *Ctx) {
 	if !c.searchMode {
 		c04RunWide(c, g, opt) // c04_wide.go: a few documents with thousands of entries
 	}
+	// last of the random streams (the streams above draw what they drew before it existed)
+	c04RunIndexNamed(c, opt) // c04_keys.go: a list on one side, a container whose member names are list positions on the other
 	if c.Thorough() && !c.searchMode {
 		all := c04EnumDocs()
 		c.Note("exhaustive scope: %d root containers of size <= 4 over keys {a,b}; all ordered pairs x both strategies", len(all))
